@@ -7,7 +7,9 @@ readers (public API only): all 5x5 ordered pairs and sampled chains of length 3-
 Property oracle: Coq ok_chain (request 802): every time after pass 1 differs from the original by less than the coarsest
 resolution on the chain (with SAMI on the chain the final end is not compared), and pass 2 = pass 1 exactly; the visible
 text of every caption, whitespace-normalised as a whole, is unchanged after every hop; no further language appears
-(Python side).  Correspondence: after every hop the times equal the model's trace (request 800) at the resolution
+(Python side).  History: every multi-language chain and 20 % of the others are run a second time with ONE long-lived reader and
+ONE long-lived writer object per format (reused for every hop of that format and for the second pass); every hop of
+both passes must be observed exactly as with fresh objects (kind reused-objects).  Correspondence: after every hop the times equal the model's trace (request 800) at the resolution
 reached so far, where a model hop prints each timing token with the C02 writer models and parses it with the C01
 reader models; MicroDVD documents of the real writer equal the string-level writer model's (request 803).
 Shapes that the real code does not preserve (cues below the resolution, several languages through single-language
@@ -37,18 +39,21 @@ def hi_of(chain):
     return SAMI_HI if 3 in chain else DAY
 
 
-def write_read(f, cs):
-    if f == 0:
-        return SRTReader().read(SRTWriter().write(cs), lang="en-US")
-    if f == 1:
-        return WebVTTReader().read(WebVTTWriter().write(cs), lang="en-US")
-    if f == 2:
-        return DFXPReader().read(DFXPWriter().write(cs))
-    if f == 3:
-        return SAMIReader().read(SAMIWriter().write(cs))
-    if f == 4:
-        return MicroDVDReader().read(MicroDVDWriter().write(cs), lang="en-US")
-    raise ValueError(f)
+CLASSES = [(SRTReader, SRTWriter), (WebVTTReader, WebVTTWriter), (DFXPReader, DFXPWriter), (SAMIReader, SAMIWriter),
+           (MicroDVDReader, MicroDVDWriter)]
+
+
+def write_read(f, cs, objs=None):
+    """one hop.  objs None: fresh reader and writer objects; else a dict {format: (reader, writer)} of LONG-LIVED objects,
+    one pair per format, reused for every hop of that format and for the second pass"""
+    if objs is None:
+        rd, wr = CLASSES[f][0](), CLASSES[f][1]()
+    else:
+        if f not in objs:
+            objs[f] = (CLASSES[f][0](), CLASSES[f][1]())
+        rd, wr = objs[f]
+    doc = wr.write(cs)
+    return rd.read(doc, lang="en-US") if f in (0, 1, 4) else rd.read(doc)
 
 
 def norm_line(l):
@@ -359,11 +364,11 @@ def squeeze(s):
     return re.sub(r"\s+", "", s)
 
 
-def run_chain(chain, cs):
+def run_chain(chain, cs, objs=None):
     """list of per-hop observations (Ok/Err) and the final caption set"""
     trace = []
     for f in chain:
-        r = impl.call(lambda: write_read(f, cs))
+        r = impl.call(lambda: write_read(f, cs, objs))
         if isinstance(r, Err):
             trace.append(r)
             return trace, None
@@ -373,6 +378,24 @@ def run_chain(chain, cs):
         if isinstance(o, Err):
             return trace, None
     return trace, cs
+
+
+def reused_difference(chain, langs, t1, t2):
+    """the same chain, both passes, with ONE long-lived reader and writer object per format: None if every hop of both
+    passes is observed exactly as with fresh objects, else (hop index over both passes, observed with reuse, fresh)"""
+    objs = {}
+    r1, c1 = run_chain(chain, build(langs), objs)
+    r2, _ = run_chain(chain, c1, objs) if c1 is not None else ([], None)
+    fresh, reused = t1 + t2, r1 + r2
+    for k in range(max(len(fresh), len(reused))):
+        a = fresh[k] if k < len(fresh) else None
+        b = reused[k] if k < len(reused) else None
+        if isinstance(a, Ok) and isinstance(b, Ok) and a.v == b.v:
+            continue
+        if isinstance(a, Err) and isinstance(b, Err):
+            continue
+        return (k, show(b) if b is not None else None, show(a) if a is not None else None)
+    return None
 
 
 def run(ctx):
@@ -423,6 +446,20 @@ def run(ctx):
         cs = build(langs)
         t1, cs1 = run_chain(chain, cs)
         t2, cs2 = run_chain(chain, cs1) if cs1 is not None else ([], None)
+        if nl > 1 or rng.random() < 0.2:
+            # history: one reader and one writer object per format for all hops and the second pass - same result
+            bump(dist, "chains_also_run_with_one_long_lived_reader_and_writer_per_format")
+            if nl > 1:
+                bump(dist, "multi_language_chains_also_run_with_long_lived_objects")
+            rd = reused_difference(chain, langs, t1, t2)
+            res["evaluations"] += 1
+            if rd is not None:
+                res["violations"].append({
+                    "kind": "reused-objects", "chain": [FMT[f] for f in chain], "chain_codes": chain, "lang_index": 0,
+                    "input": [[[list(c) for c in cu], tx] for (cu, tx) in langs], "replay": "chain", "reused": True,
+                    "what": "chain %s run twice with ONE reader and writer object per format: hop %d (counted over both "
+                            "passes) gives %s; with fresh objects per hop %s" % ("->".join(FMT[f] for f in chain), rd[0],
+                                                                                  rd[1], rd[2])})
         extra = extra_languages(t1 + t2, len(langs))
         if extra:
             res["violations"].append({
@@ -539,7 +576,9 @@ def run(ctx):
                    "pairs anywhere; a caption-level layout or one layout on every node; '|' is replaced (counted) exactly "
                    "when the chain has a MicroDVD hop. One language unless the chain stays within DFXP/SAMI (else: "
                    "shape stream). Compared: times by Coq ok_chain; visible text of the whole caption, "
-                   "whitespace-normalised; no further language. stream_shapes: the shapes the real code does not "
+                   "whitespace-normalised; no further language; every multi-language chain and 20 %% of the others also "
+                   "with one long-lived reader / writer object per format for all hops and both passes: same observations. "
+                   "stream_shapes: the shapes the real code does not "
                    "preserve, generated every run, reported under failure-keyed kinds. Non-trivial: every distinct "
                    "(chain, cue list) in the domain." % per_pair)
     res["clauses"] = {
@@ -894,4 +933,7 @@ def replay(ctx, rec):
     ok = oracle1(802, [chain, [list(c) for c in langs[li][0]], p1, p2])
     bad = text_mismatch(t1 + t2, li, langs[li][1])
     extra = extra_languages(t1 + t2, len(langs))
+    if rec.get("reused"):
+        rd = reused_difference(chain, langs, t1, t2)
+        return rd is not None, rd
     return ok != 1 or bad is not None or bool(extra), [show(p1), show(p2), bad, extra]
